@@ -214,6 +214,9 @@ structure Pt where
   key : String
   v : Val
   time : Int
+  /-- id of the group on a BATCH edge behind a window (`NewBeginBatchMessage`: dimensions = the sorted tag keys of the
+  group, i.e. duplicates of the stream edge's list collapsed) -/
+  bid : String := ""
 deriving Repr, Inhabited
 
 /-- An emitted point: group key it carries, its time and the projection (`o` field) the harness prints. -/
@@ -550,6 +553,124 @@ def iqlNodeWith (gcf : Cache → Kind → Cache × Option Kind) (m : Method) : N
 
 def iqlNode (m : Method) : Node Cache IqlSt Pt Out := iqlNodeWith (getCreateFn m) m
 def iqlNodeOld (m : Method) : Node Cache IqlSt Pt Out := iqlNodeWith (getCreateFnOld m) m
+
+/-! ### batch edges: window output and the batch side of receivers (pipelines `|window()…|NODE`) -/
+
+/-- a buffered batch on a batch edge -/
+structure Batch where
+  key : String          -- structured key of its group (rendering)
+  bid : String          -- its group id on the batch edge
+  tmax : Int
+  pts : List Pt
+deriving Repr, Inhabited
+
+structure WinCB where
+  key : String
+  bid : String
+  buf : List Pt := []
+  count : Nat := 0
+  nextEmit : Nat
+deriving Repr, Inhabited
+
+/-- `windowByCount` emitting the batches themselves (same transcription as `windowCountNode`). -/
+def windowCountNodeB (period every : Nat) (fill : Bool) : Node Unit WinCB Pt Batch :=
+  { newGroup := fun _ _ first => ((), match first with
+      | .point _ p => { key := p.key, bid := p.bid, nextEmit := if fill then period else every }
+      | _ => { key := "", bid := "", nextEmit := 0 }),
+    recv := fun _ w m => ((), match m with
+      | .point _ p =>
+        let buf := w.buf ++ [p]
+        let buf := if buf.length > period then buf.drop 1 else buf
+        let count := w.count + 1
+        if count == w.nextEmit then
+          ({ w with buf := buf, count := count, nextEmit := w.nextEmit + every },
+           [{ key := w.key, bid := w.bid, tmax := p.time, pts := buf }])
+        else ({ w with buf := buf, count := count }, [])
+      | _ => (w, [])) }
+
+/-- projection of an emitted batch: size, then per point its time and (if the node sets one) its `o` field -/
+def batchProj (pts : List (Int × Option String)) : String :=
+  s!"n:{pts.length}" ++ String.join (pts.map (fun p => s!"/{p.1}" ++ (match p.2 with | some o => "=" ++ o | none => "")))
+
+def batchOut (b : Batch) (pts : List (Int × Option String)) : Out := { key := b.key, time := b.tmax, proj := batchProj pts }
+
+/-- a receiver on a batch edge, given as what it does with one whole batch (BeginBatch, the points, EndBatch) -/
+def batchNode {Γ σ : Type} (init : σ) (onBatch : Γ → σ → Batch → Γ × (σ × List Out)) : Node Γ σ Batch Out :=
+  { newGroup := fun γ _ _ => (γ, init),
+    recv := fun γ s m => match m with
+      | .buffered _ b => onBatch γ s b
+      | _ => (γ, (s, [])) }
+
+/-- `sampleGroup` batch side: `count` restarts at every BeginBatch. -/
+def sampleNodeB (n : Nat) : Node Unit Unit Batch Out :=
+  batchNode () (fun _ _ b => ((), ((), [batchOut b ((b.pts.zipIdx.filter (fun pi => pi.2 % n == 0)).map (fun pi => (pi.1.time, none)))])))
+
+/-- `stateTrackingGroup` batch side with `stateCountTracker`: `tracker.reset()` at BeginBatch. -/
+def stateCountNodeB (t : Int) : Node Unit Unit Batch Out :=
+  batchNode () (fun _ _ b =>
+    let r := b.pts.foldl (fun (acc : Int × List (Int × Option String)) p =>
+      match evalGt p.v t with
+      | none => acc
+      | some false => (0, acc.2 ++ [(p.time, some "i:-1")])
+      | some true => (acc.1 + 1, acc.2 ++ [(p.time, some s!"i:{acc.1 + 1}")])) (0, [])
+    ((), ((), [batchOut b r.2])))
+
+/-- `whereGroup` batch side with `lambda: count() % 2 == 1`: the group's `count()` is NOT reset between batches. -/
+def whereCountNodeB : Node Unit Nat Batch Out :=
+  batchNode 0 (fun _ cnt b =>
+    let r := b.pts.foldl (fun (acc : Nat × List (Int × Option String)) p =>
+      (acc.1 + 1, if (acc.1 + 1) % 2 == 1 then acc.2 ++ [(p.time, none)] else acc.2)) (cnt, [])
+    ((), (r.1, [batchOut b r.2])))
+
+/-- `changeDetectGroup` batch side: `previous = nil` at BeginBatch. -/
+def changeDetectNodeB : Node Unit Unit Batch Out :=
+  batchNode () (fun _ _ b =>
+    let r := b.pts.foldl (fun (acc : Option Val × List (Int × Option String)) p =>
+      match p.v with
+      | .missing => acc
+      | v => if acc.1 == some v then acc else (some v, acc.2 ++ [(p.time, none)])) (none, [])
+    ((), ((), [batchOut b r.2])))
+
+/-- `derivativeGroup` batch side (`.as('o')`): `previous = nil` at BeginBatch. -/
+def derivativeNodeB : Node Unit Unit Batch Out :=
+  batchNode () (fun _ _ b =>
+    let r := b.pts.foldl (fun (acc : Option (Float × Int) × List (Int × Option String)) p =>
+      match p.v.num? with
+      | none => acc
+      | some f1 =>
+        match acc.1 with
+        | none => (some (f1, p.time), acc.2)
+        | some (f0, t0) =>
+          let elapsed := Float.ofInt (p.time - t0)
+          if elapsed == 0 then (some (f1, p.time), acc.2)
+          else (some (f1, p.time), acc.2 ++ [(p.time, some (fbits ((f1 - f0) / (elapsed / 1e9))))])) (none, [])
+    ((), ((), [batchOut b r.2])))
+
+/-- `influxqlGroup` batch side (`sum` / `count`) with the node-wide createFn cache: `rc = nil` at BeginBatch, the
+context is realised from the first point that has the field; at EndBatch an unrealised context is realised for
+float64 ("assume float64 since we do not have any data") and the result is emitted as a stream point at `tmax`. -/
+def iqlNodeB (m : Method) : Node Cache Unit Batch Out :=
+  batchNode () (fun γ _ b =>
+    let r := b.pts.foldl (fun (acc : Cache × Option Ctx) p =>
+      match acc.2 with
+      | some c => (acc.1, some (c.aggregate m p.v))
+      | none =>
+        match p.v.kind? with
+        | none => acc
+        | some k =>
+          let g := getCreateFn m acc.1 k
+          match g.2 with
+          | none => (g.1, none)
+          | some f => (g.1, some (({ kind := f, time := b.tmax } : Ctx).aggregate m p.v))) (γ, none)
+    let fin : Cache × Option Ctx := match r.2 with
+      | some c => (r.1, some c)
+      | none =>
+        let g := getCreateFn m r.1 .flt
+        (g.1, g.2.map (fun f => { kind := f, time := b.tmax }))
+    (fin.1, ((), match fin.2 with
+      | some c => [{ key := b.key, time := b.tmax,
+                     proj := if m == .sum && c.kind == .flt then fbits (Float.ofInt c.acc) else s!"i:{c.acc}" }]
+      | none => [])))
 
 /-! ### recording receiver (ties `Demux.step` to the real `groupedConsumer` on every message type) -/
 
